@@ -125,8 +125,8 @@ PROPS.update({
 
 PROPS.update({
     "C09": {"modules": ["Carapace.Props.C09"], "ops": [("invoke", {"quick": 8000, "thorough": 400000})], "race_ops": [("batchrace", {"quick": 1500, "thorough": 60000})],
-            "rule": ALG_RULE + "; race scenarios: Batches of 2-5 members that share one captured Action (plain, under NoSpace / Usage / MultiParts / Prefix / Style / nested Batch), members that call Setenv on a Context with spare capacity, edit args / value, each invoked three times on a -race build",
-            "assumptions": ALG_ASSUME + ["data-race freedom is a property of the Go runtime execution: it is searched with the race detector on generated Batch scenarios (members sharing captured Actions, Setenv, nested batches), never proved; members that register completions (Gen / FlagCompletion / ActionExecute) are exercised by the parse engine (C20), not here"],
+            "rule": ALG_RULE + "; race scenarios: Batches of 2-5 members that share one captured Action (plain, under NoSpace / Usage / MultiParts / Prefix / Style / nested Batch), members that call Setenv on a Context with spare capacity, edit args / value, members that register completions (Gen, FlagCompletion on a shared command), members that run embedded commands of their own through ActionExecute, members behind the file cache with equal and different keys - each invoked two or three times on a -race build",
+            "assumptions": ALG_ASSUME + ["data-race freedom is a property of the Go runtime execution: it is searched with the race detector on generated Batch scenarios (members sharing captured Actions, Setenv, nested batches), never proved; Batches with ActionExecute / Cache members have no Lean model: the harness compares their candidates with those of the members invoked one after the other"],
             "claimed": True, "engine": "alg",
             "level_text": ("`C09_schedule_independent` / `C09_any_two_schedules`: for every complete schedule of the member goroutines (any permutation) the result slots hold exactly the members' sequential results (each member writes only its own slot; induction over the schedule); `C09_equals_sequential`, `C09_merge_values` (merged by inserted value, later replaces earlier), `C09_merge_usage` (last non-empty usage), `C09_merge_messages` (union), `C09_batch_small`. The model is bound to batch.go / invokedAction.go by exact comparison of invoked Batch results on random expressions. "
                            "Partial by nature: the absence of data races is searched, not proved - Batch scenarios run on a -race build and any report of the race detector is a violation."),
